@@ -19,7 +19,7 @@ import ast
 import itertools
 from dataclasses import dataclass, field
 
-from .core import AnalysisError, MISSING
+from .core import AnalysisError, MISSING, UNRECOGNISED
 from .pymodel import package
 from .valueflow import Flow, lower, peval, show, simp, subst, walk, truthy, flatten_fstr
 
@@ -402,8 +402,15 @@ class RateModel:
     def code_table(self, cls: str, attr: str) -> dict:
         """{code: (member text, int value)} of a class-level dict such as formula2type."""
         c, node = self.pkg.resolve_attr(cls, attr)
+        if isinstance(node, ast.Call) and isinstance(node.func, ast.Name) and node.func.id == "dict" and len(node.args) == 1 and not node.keywords:
+            # dict(<static sequence of pairs>): dict(enumerate((A, B, ..), start=1)), dict(zip((1, 2), (A, B))), dict([(1, A), ..]) -- the display it builds
+            from .normalize import _static_seq
+            import copy
+            seq = _static_seq(copy.deepcopy(node.args[0]), {})
+            if seq is not None and seq.elts and all(isinstance(e, (ast.Tuple, ast.List)) and len(e.elts) == 2 and isinstance(e.elts[0], ast.Constant) for e in seq.elts):
+                node = ast.Dict(keys=[e.elts[0] for e in seq.elts], values=[e.elts[1] for e in seq.elts])
         if node is None or not isinstance(node, ast.Dict):
-            raise AnalysisError(f"code table {cls}.{attr} vanished", (self.pkg.cls(cls).file, 0), MISSING)
+            raise AnalysisError(f"code table {cls}.{attr} vanished" if node is None else f"code table {cls}.{attr} is not a dict display this model can read", (self.pkg.cls(cls).file, 0), MISSING if node is None else UNRECOGNISED)
         out = {}
         for k, v in zip(node.keys, node.values):
             out[ast.literal_eval(k)] = (ast.unparse(v), self._enum_expr(cls, v))
